@@ -13,6 +13,9 @@
 //	cfgfail   Configure returns an error
 //	syncfail  Synchronize returns an error
 //	die       as ok, but exit shortly after answering the first CreateContainer
+//	idleclose as ok; once <reports>/idle exists (the harness creates it while the runtime is
+//	          idle) close the connection to the runtime (stub.Stop) and KEEP RUNNING
+//	idleexit  as ok; once <reports>/idle exists, exit
 package main
 
 import (
@@ -63,7 +66,7 @@ func mode() string {
 	if len(base) >= 3 && base[2] == '-' {
 		base = base[3:]
 	}
-	for _, m := range []string{"ok", "exit", "hang", "cfgfail", "syncfail", "die"} {
+	for _, m := range []string{"ok", "exit", "hang", "cfgfail", "syncfail", "die", "idleclose", "idleexit"} {
 		if strings.HasPrefix(base, m) {
 			return m
 		}
@@ -108,12 +111,41 @@ func main() {
 	reports = filepath.Join(filepath.Dir(filepath.Dir(os.Args[0])), "reports")
 	p := &plugin{mode: mode()}
 	// name, index and connection come from the environment the runtime prepared
-	s, err := stub.New(p)
+	var opts []stub.Option
+	if p.mode == "idleclose" {
+		// by default the stub exits the process when the connection goes away; this probe is the
+		// plugin that loses its connection and keeps running
+		opts = append(opts, stub.WithOnClose(func() {}))
+	}
+	s, err := stub.New(p, opts...)
 	if err != nil {
 		logEvent("stub-error", err.Error())
 		os.Exit(5)
 	}
-	if err := s.Run(context.Background()); err != nil {
+	if p.mode == "idleclose" || p.mode == "idleexit" {
+		go func() {
+			for {
+				if _, err := os.Stat(filepath.Join(reports, "idle")); err == nil {
+					break
+				}
+				time.Sleep(5 * time.Millisecond)
+			}
+			if p.mode == "idleexit" {
+				logEvent("idle-exit", "")
+				os.Exit(0)
+			}
+			s.Stop()
+			logEvent("idle-closed", "")
+		}()
+	}
+	err = s.Run(context.Background())
+	if p.mode == "idleclose" {
+		// the connection is gone; stay around until somebody kills us
+		for {
+			time.Sleep(time.Hour)
+		}
+	}
+	if err != nil {
 		logEvent("run-error", err.Error())
 		os.Exit(6)
 	}
